@@ -14,6 +14,7 @@ REGISTRY = {
     "C02": "matching",
     "C03": "passfail",
     "C04": "ap",
+    "C10": "filtering",
     "C07": "frames",
     "C05": "clear",
 }
